@@ -166,13 +166,20 @@ RA(F, blk, e, inv) ==
 (* the terminal, with the invalid offset taken at the low / high end of the   *)
 (* chunk in which parsing failed (the exact value depends on which header check *)
 (* fires first; every such value lies in [chunk start, chunk end))            *)
+(* Reader.invalidOffset is the payload start (begin) when the header parses and  *)
+(* the checksum fails, so read-ahead needs a sync offset beyond the payload start: *)
+(* for a header-only chunk (len = 0) that is beyond the END of the chunk.  A      *)
+(* damaged empty record whose end equals the later sync offset is therefore not   *)
+(* reported by the real Reader (reported to the lead as a finding; WAL batches    *)
+(* are never empty).  MustBound is the bound the code can honour.                 *)
+MustBound(c) == Max(CEnd(c) - 1, c.off + c.hdr)
 ChunkAround(F, o) == {c \in F.ncs : c.off <= o /\ o < CEnd(c)}
 Term(F, r, mode) ==
   IF r.st \in {"EOF", "UEOF"} THEN r.st
   ELSE IF BugNoReadAhead THEN "UEOF"
   ELSE LET A == ChunkAround(F, r.o)
            inv == IF A = {} THEN r.inv
-                  ELSE LET c == CHOOSE c \in A : TRUE IN IF mode = "lo" THEN Min(r.inv, c.off) ELSE Max(r.inv, CEnd(c) - 1)
+                  ELSE LET c == CHOOSE c \in A : TRUE IN IF mode = "lo" THEN Min(r.inv, c.off) ELSE Max(r.inv, MustBound(c))
        IN RA(F, r.s.blk + 1, 0, inv)
 
 (* record identity: index k when the parts are exactly the chunks of record k *)
@@ -226,7 +233,7 @@ LaterProof(F, c, bound) ==   \* an intact chunk in a later block, reachable by t
      /\ \A x \in F.ncs : (x.off \div B = d.off \div B /\ x.off <= d.off) => NewFullOK(F, x)
 CorruptionReported(F, c) == LET r == Read(F) IN
   /\ \A id \in SeqToSet(r.recs) : id > 0 /\ id < c.rec             \* the damaged chunk is never part of a returned record
-  /\ r.recs = Upto(Len(r.recs))
-  /\ (LaterProof(F, c, CEnd(c) - 1) => (r.lo = "CORR" /\ r.hi = "CORR"))      \* synced damage is reported
+  /\ r.recs = Upto(c.rec - 1)                                      \* everything before the damage is returned
+  /\ (LaterProof(F, c, MustBound(c)) => (r.lo = "CORR" /\ r.hi = "CORR"))     \* synced damage is reported
   /\ (~LaterProof(F, c, c.off) => (r.lo = "UEOF" /\ r.hi = "UEOF"))            \* unsynced damage is an end of log
 =============================================================================
